@@ -42,6 +42,9 @@ def cases(tier, seed):
             yield {"k": "session", "gen": gen, "seed": rnd.randrange(1 << 30),
                    "rounds": 24 if i == 0 else rnd.randint(10, 60),
                    "prelude": i % 2 == 1, "refuse_first": i % 2 == 1 or i % 3 == 2}
+    for gen in (4, 5):
+        yield {"k": "pair", "gen": gen, "seed": 4200 + gen + seed,
+               "rounds": 6 if tier == "quick" else 60}
     for b in range(256):
         yield {"k": "crc2", "b0": b}
     yield {"k": "crc_random", "seed": rnd.randrange(1 << 30),
@@ -622,7 +625,80 @@ def run_session(case):
             "distinct": out["rounds"], "obs": obs, "sample": {"gen": gen, "session": True}}
 
 
+def run_pair(case):
+    """Two sockets of one process connected to the same console (same host and port) receive
+    a damaged frame in the same loop iteration: each drops it, resets and is re-established,
+    and the next intact frame reaches both."""
+    import asyncio
+    gen = case["gen"]
+    rnd = random.Random(case["seed"])
+    cat = F.catalogue(gen)
+    kinds = sorted(k for k in cat if not k.startswith("unknown"))
+    viol, obs, out = [], {}, {"rounds": 0}
+
+    async def main(loop, net, log):
+        ws = [SockWorld(gen, loop, net, log), SockWorld(gen, loop, net, log)]
+        for w in ws:
+            await w.open()
+        await quiesce(loop)
+        for i in range(case["rounds"]):
+            conns = net.open_conns()
+            if len(conns) != 2:
+                out["fail"] = ("not-two-connections", i, len(conns))
+                return
+            n0 = [len(w.msgs) for w in ws]
+            for c in conns:
+                c.transport.peer_data(F.probe_frame(gen, i))
+            await quiesce(loop)
+            if [len(w.msgs) for w in ws] != [n + 1 for n in n0]:
+                out["fail"] = ("intact-frame-not-delivered-to-both", i,
+                               [len(w.msgs) - n for w, n in zip(ws, n0)])
+                return
+            raw = cat[rnd.choice(kinds)]
+            lo, hi = F.covered_span(gen, raw)
+            bad = bytearray(raw)
+            while True:
+                bit = rnd.randrange(lo * 8, hi * 8)
+                if bit // 8 not in (lo + 4, lo + 5):
+                    break
+            bad[bit // 8] ^= 0x80 >> (bit % 8)
+            for c in conns:                    # the same instant for both
+                c.transport.peer_data(bytes(bad))
+            await quiesce(loop)
+            if [len(w.msgs) for w in ws] != [n + 1 for n in n0]:
+                out["fail"] = ("damaged-frame-delivered", i, None)
+                return
+            await asyncio.sleep(2.5)
+            await quiesce(loop)
+            now = net.open_conns()
+            if len(now) != 2 or any(c in conns for c in now):
+                out["fail"] = ("not-both-re-established", i, len(now))
+                return
+            out["rounds"] = i + 1
+        for w in ws:
+            await w.close()
+
+    _, log, st = H.run(main)
+    if st != "ok":
+        viol.append({"mechanism": "socket-scenario-hang", "detail": {"status": st}})
+    elif "fail" in out:
+        what, i, extra = out["fail"]
+        mech = {"not-both-re-established": "no-reset-after-damaged-frame",
+                "not-two-connections": "no-reset-after-damaged-frame",
+                "damaged-frame-delivered": "damaged-frame-delivered",
+                "intact-frame-not-delivered-to-both":
+                    "intact-frame-after-reconnect-not-delivered"}[what]
+        viol.append({"mechanism": mech, "detail": {"gen": gen, "round": i, "what": what,
+                                                   "extra": extra, "two_sockets": True},
+                     "log": H.log_slice(log, 30)})
+    obs["damaged_frames_hitting_two_sockets_at_once"] = out["rounds"]
+    return {"violations": viol, "evals": case["rounds"], "decided": out["rounds"],
+            "distinct": out["rounds"], "obs": obs, "sample": {"gen": gen, "pair": True}}
+
+
 def run_case(case):
+    if case["k"] == "pair":
+        return run_pair(case)
     if case["k"] == "session":
         return run_session(case)
     if case["k"] == "corner":
